@@ -1,6 +1,7 @@
 import GridVerif.Model.Proto
 import GridVerif.Model.Elem
 import GridVerif.Model.Moments
+import GridVerif.Gen.Moments
 
 namespace GridVerif.Driver.C14
 open GridVerif.Proto GridVerif.Moments
@@ -15,6 +16,14 @@ open GridVerif.Proto GridVerif.Moments
   C14.dipole   <dim> <fmat points> <fvec weights> <fvec density> <fmat coords> <fvec charges>
                <fvec masses>                         -> ok <fvec> | error tag
   type ∈ cartesian | radial | pure | pure-radial
+
+  the generated programs (Gen/Moments.lean), run as they are:
+  C14.gen-horton  <type-string> <dim:int> <l:int>     -> ok <arr> | error tag
+  C14.gen-orders  <ivec points.shape> <ivec centers.shape> <ivec func_vals.shape> <L:int>
+                  <type name of orders> <type-string>  -> ok <dim> <ivec orders> <arr> | error tag
+  C14.gen-degree  <ivec orders>                        -> ok <int> | error tag
+  C14.gen-indices <arr>                                -> ok <ivec> | error tag
+  arr := 1 <ivec>  |  2 <imat>
 -/
 
 def pType : String → Option MomType
@@ -28,6 +37,19 @@ def sErr : Err → String
   | .valueError => "value-error"
   | .typeError => "type-error"
   | .indexError => "index-error"
+
+def sArr : IntArr → String
+  | .d1 v => "1 " ++ sInts v
+  | .d2 r => "2 " ++ sMat toString r
+
+def pArr : List String → Option (IntArr × List String)
+  | "1" :: rest => do
+    let (v, rest) ← pVec pInt rest
+    pure (.d1 v, rest)
+  | "2" :: rest => do
+    let (m, rest) ← pMat pInt rest
+    pure (.d2 m, rest)
+  | _ => none
 
 def pTabs : Nat → List String → Option (List (List (List Float)) × List String)
   | 0, rest => some ([], rest)
@@ -93,6 +115,35 @@ def handle : List String → Option String
     if pts.length ≠ w.length ∨ coords.length ≠ charges.length ∨ masses.length ≠ charges.length then none else
     match dipole (⟨dim, pts, w⟩ : Grid Float) dens coords charges masses with
     | .ok v => pure ("ok " ++ sFloats v)
+    | .error e => pure (sErr e)
+  | ["C14.gen-horton", ty, dim, l] => do
+    let dim ← pInt dim
+    let l ← pInt l
+    match Gen.Moments.generateOrdersHortonOrder l ty dim with
+    | .ok a => pure ("ok " ++ sArr a)
+    | .error e => pure (sErr e)
+  | "C14.gen-orders" :: rest => do
+    let (ps, rest) ← pVec pInt rest
+    let (cs, rest) ← pVec pInt rest
+    let (fs, rest) ← pVec pInt rest
+    match rest with
+    | [L, otype, ty] =>
+      let L ← pInt L
+      match Gen.Moments.momentsOrders ps cs fs L otype ty with
+      | .ok (dim, os, a) => pure s!"ok {dim} {sInts os} {sArr a}"
+      | .error e => pure (sErr e)
+    | _ => none
+  | "C14.gen-degree" :: rest => do
+    let (os, rest) ← pVec pInt rest
+    if rest ≠ [] then none else
+    match Gen.Moments.momentsSolidDegree os with
+    | .ok d => pure s!"ok {d}"
+    | .error e => pure (sErr e)
+  | "C14.gen-indices" :: rest => do
+    let (a, rest) ← pArr rest
+    if rest ≠ [] then none else
+    match Gen.Moments.momentsPureRadialIndices a with
+    | .ok idx => pure ("ok " ++ sInts idx)
     | .error e => pure (sErr e)
   | _ => none
 
